@@ -596,4 +596,5 @@ def run(ctx):
     # QV/Model/CircuitQueue.lean compared exactly with the real methods + executable SPEC search
     from props import C05_queue
     C05_queue.run(ctx)
+    C05_queue.round4_searches(ctx)
     ctx.notes.append("per class: symbolic obligations (all parameter values) for dagger, dagger∘controlled_by, controlled_by(1,2), on_qubits, and the same after a parameter update; numeric search on the real methods incl. 3 controls and random relabellings; random circuits for invert/copy/+/on_qubits")
